@@ -1,5 +1,6 @@
 import BFL.Proofs.LifecycleHist
 import BFL.Proofs.LifecycleComm
+import BFL.Proofs.LifecycleFair
 /-
 C09 — filter lifecycle: ordered epochs, honoured commands, guaranteed termination.
 
@@ -182,6 +183,130 @@ theorem reset_leads_to_init (as : List Act)
   subst hpc'
   exact ⟨hist, by simp [exec, step, thr]⟩
 
+/-! ## Liveness under fairness, for every command placement
+
+`reset_leads_to_init` lets the thread run alone.  Here the controller may issue `run`, `reset`,
+`wait` and the condition variable may wake spuriously at **every** point of the continuation; the
+assumptions are fairness (the thread gets 14 moves), a run condition that holds, and that nobody
+asks for the opposite (`Benign`: no `teardown`, no `reboot`). -/
+
+/-- A requested reset — or a `run` request reaching a thread that is on its way to the wait, in
+it, or past it — is honoured by a new initialisation within 14 thread moves of **any** benign
+continuation: the history gains an `Init`. -/
+theorem reset_leads_to_init_fair (as rest : List Act)
+    (hrun : (runAll Cfg.current as).run = true) (htd : (runAll Cfg.current as).teardown = false)
+    (hmid : (runAll Cfg.current as).mid = false)
+    (h1 : (runAll Cfg.current as).pc ≠ PC.preFinal) (h2 : (runAll Cfg.current as).pc ≠ PC.done)
+    (hpend : (runAll Cfg.current as).reset = true ∨ (runAll Cfg.current as).pc = PC.top ∨
+      (runAll Cfg.current as).pc = PC.zero ∨ (runAll Cfg.current as).pc = PC.preWait ∨
+      (runAll Cfg.current as).pc = PC.waiting ∨ (runAll Cfg.current as).pc = PC.preInit ∨
+      (runAll Cfg.current as).pc = PC.outD)
+    (hben : ∀ a ∈ rest, Benign a) (hfair : 14 ≤ moves rest) :
+    ∃ l, (runAll Cfg.current (as ++ rest)).hist = l ++ (runAll Cfg.current as).hist ∧ Ev.init ∈ l := by
+  have hR : Resetting (runAll Cfg.current as) := ⟨nolost_all _ as, hrun, htd, hmid, h1, h2, hpend⟩
+  have hv : vInit (runAll Cfg.current as).pc + 1 ≤ moves rest := by
+    have : vInit (runAll Cfg.current as).pc ≤ 13 := by
+      generalize (runAll Cfg.current as).pc = pc
+      cases pc <;> simp [vInit]
+    omega
+  rw [runAll, exec_append]
+  exact fair_init_from rest _ hR hben hv
+
+/-- `run()` starts the filter: once `run_` is set (no teardown, no `reboot()` in progress) and the
+thread has not yet initialised its epoch — it is before the wait, at its entry with the mutex
+held, inside it, or just past it — every benign fair continuation contains the `Init`. -/
+theorem run_leads_to_init_fair (as rest : List Act)
+    (hrun : (runAll Cfg.current as).run = true) (htd : (runAll Cfg.current as).teardown = false)
+    (hmid : (runAll Cfg.current as).mid = false)
+    (hpc : (runAll Cfg.current as).pc = PC.top ∨ (runAll Cfg.current as).pc = PC.zero ∨
+      (runAll Cfg.current as).pc = PC.preWait ∨ (runAll Cfg.current as).pc = PC.blocking ∨
+      (runAll Cfg.current as).pc = PC.waiting ∨ (runAll Cfg.current as).pc = PC.preInit)
+    (hben : ∀ a ∈ rest, Benign a) (hfair : 14 ≤ moves rest) :
+    ∃ l, (runAll Cfg.current (as ++ rest)).hist = l ++ (runAll Cfg.current as).hist ∧ Ev.init ∈ l := by
+  have hL := nolost_all Cfg.current as
+  have hb : (runAll Cfg.current as).pc ≠ PC.blocking := by
+    intro hpcb
+    have := (hL rfl rfl).2 hpcb
+    rw [hrun] at this
+    exact absurd this.1 (by simp)
+  apply reset_leads_to_init_fair as rest hrun htd hmid _ _ _ hben hfair
+  · rcases hpc with h | h | h | h | h | h <;> simp [h]
+  · rcases hpc with h | h | h | h | h | h <;> simp [h]
+  · rcases hpc with h | h | h | h | h | h
+    · exact Or.inr (Or.inl h)
+    · exact Or.inr (Or.inr (Or.inl h))
+    · exact Or.inr (Or.inr (Or.inr (Or.inl h)))
+    · exact absurd h hb
+    · exact Or.inr (Or.inr (Or.inr (Or.inr (Or.inl h))))
+    · exact Or.inr (Or.inr (Or.inr (Or.inr (Or.inr (Or.inl h)))))
+
+/-- The hypotheses are needed.  (1) run condition: with the same pending reset and a condition
+that turns false, the thread ends and no `Init` follows the reset.  (2) `run_`: after a
+`reboot()` (which clears `run_`) the thread parks and no `Init` follows however long it is
+scheduled.  (3) no teardown: a teardown ends the thread without a new epoch. -/
+def resetInStep : List Act := [.c .run] ++ List.replicate 9 (.t true) ++ [.c .reset]
+
+theorem fair_init_needs_condition_counterexample :
+    (runAll Cfg.current resetInStep).reset = true ∧ (runAll Cfg.current resetInStep).run = true ∧
+    (runAll Cfg.current resetInStep).pc = PC.inStep ∧
+    (runAll Cfg.current (resetInStep ++ List.replicate 14 (.t false))).pc = PC.done ∧
+    Ev.init ∉ (runAll Cfg.current (resetInStep ++ List.replicate 14 (.t false))).hist.takeWhile
+      (fun e => decide (e ≠ Ev.cmdReset)) := by decide
+
+theorem fair_init_needs_run_counterexample :
+    (runAll Cfg.current ([.c .run] ++ List.replicate 9 (.t true) ++ [.c .reboot, .fin] ++
+        List.replicate 16 (.t true))).pc = PC.waiting ∧
+    Ev.init ∉ (runAll Cfg.current ([.c .run] ++ List.replicate 9 (.t true) ++ [.c .reboot, .fin] ++
+        List.replicate 16 (.t true))).hist.takeWhile (fun e => decide (e ≠ Ev.cmdReboot)) := by decide
+
+theorem fair_init_needs_no_teardown_counterexample :
+    (runAll Cfg.current (resetInStep ++ [.c .teardown] ++ List.replicate 14 (.t true))).pc = PC.done ∧
+    Ev.init ∉ (runAll Cfg.current (resetInStep ++ [.c .teardown] ++ List.replicate 14 (.t true))).hist.takeWhile
+      (fun e => decide (e ≠ Ev.cmdReset)) := by decide
+
+/-- non-vacuity of `reset_leads_to_init_fair`: the reset of `resetInStep` followed by a
+continuation in which the controller keeps issuing `run`, `reset`, `wait` between the thread's
+moves is benign, fair, and the `Init` is there -/
+def benignTail : List Act :=
+  [.t true, .c .reset, .t true, .t true, .c .run, .spur, .t true, .c .wait, .t true, .t true, .c .reset,
+   .t true, .t true, .t true, .t true, .t true, .t true, .t true, .t true]
+
+example : (∀ a ∈ benignTail, Benign a) ∧ 14 ≤ moves benignTail ∧
+    Ev.init ∈ (runAll Cfg.current (resetInStep ++ benignTail)).hist.takeWhile (fun e => decide (e ≠ Ev.cmdRun)) := by
+  decide
+
+/-! ## Exactly when a step can still start after a request -/
+
+/-- `teardown_at_most_one_step` is tight only for a thread that has already read `!teardown_`
+for its next step: if teardown is set while the thread is anywhere else (inside
+`initialization_step()`, inside `run_condition()`, in a step, parked, between epochs …), **no**
+step starts any more, whatever the schedule. -/
+theorem teardown_no_step_unless_committed (cfg : Cfg) (as rest : List Act)
+    (htd : (runAll cfg as).teardown = true)
+    (h1 : (runAll cfg as).pc ≠ PC.inC) (h2 : (runAll cfg as).pc ≠ PC.aboutStep) :
+    countSteps (runAll cfg (as ++ rest)).hist = countSteps (runAll cfg as).hist := by
+  rw [runAll, exec_append]
+  exact tdout_exec cfg rest _ ⟨htd, h1, h2⟩
+
+/-- … and the exception is real: teardown requested between the read of `!teardown_` and the
+step (pc `inC`) is followed by exactly one more step. -/
+def teardownCommitted : List Act := [.c .run] ++ List.replicate 7 (.t true) ++ [.c .teardown]
+
+theorem teardown_committed_step_counterexample :
+    (runAll Cfg.current teardownCommitted).teardown = true ∧ (runAll Cfg.current teardownCommitted).pc = PC.inC ∧
+    countSteps (runAll Cfg.current teardownCommitted).hist = 0 ∧
+    countSteps (runAll Cfg.current (teardownCommitted ++ List.replicate 15 (.t true))).hist = 1 := by decide
+
+/-- The same for reset / reboot: with `reset_` set and the thread not yet committed to a step
+(it has not read `!reset_` for it: pc ≠ `aboutStep`), or with the thread outside the stepping
+loop, **no** step starts before the next `Init`, whatever the schedule. -/
+theorem reset_no_step_unless_committed (cfg : Cfg) (as rest : List Act)
+    (h1 : (runAll cfg as).pc ≠ PC.aboutStep)
+    (h2 : (runAll cfg as).reset = true ∨ OutsideLoop (runAll cfg as).pc = true) :
+    ∃ l, (runAll cfg (as ++ rest)).hist = l ++ (runAll cfg as).hist ∧ (Ev.init ∉ l → countSteps l = 0) := by
+  rw [runAll, exec_append]
+  exact rsout_exec cfg rest _ ⟨h1, h2⟩
+
 /-! ## After the join -/
 
 /-- `wait()` returns only after the thread has ended; from then on, whatever is done, no
@@ -359,5 +484,11 @@ example : ∃ later earlier, (runAll Cfg.current demoReboot).hist = later ++ Ev.
     runMon rbδ Rb.a later = Rb.ok ∧ countSteps later = 2 :=
   ⟨(runAll Cfg.current demoReboot).hist.takeWhile (fun e => decide (e ≠ Ev.cmdReboot)),
    ((runAll Cfg.current demoReboot).hist.dropWhile (fun e => decide (e ≠ Ev.cmdReboot))).tail, by decide⟩
+
+/-- the exception is real: a reset that lands after the read of `!reset_` (pc `aboutStep`) is
+followed by one step before the new `Init` -/
+theorem reset_committed_step_counterexample :
+    (runAll Cfg.current ([.c .run] ++ List.replicate 8 (.t true))).pc = PC.aboutStep ∧
+    countSteps ((runAll Cfg.current demoReset).hist.takeWhile (fun e => decide (e ≠ Ev.cmdReset))) = 1 := by decide
 
 end BFL.Life
